@@ -66,6 +66,21 @@ def make_arc(svg, c):
     return arc, ref, start, end
 
 
+VIA = ["direct", "mirrored"]
+
+
+def make_arc_via(svg, c):
+    """the arc of c, built directly or as the mirror image (x -> -x) of the mirrored arc: the same ellipse arc, but the
+    object went through a reflection (which is how arcs with a left-handed pair of radius points come to exist)"""
+    if c.get("via", "direct") == "direct":
+        return make_arc(svg, c)
+    cm = dict(c, cx=-c["cx"], rot=180.0 - c["rot"], th0=-c["th0"], dth=-c["dth"])
+    arc_m, _, _, _ = make_arc(svg, cm)
+    arc = arc_m * svg.Matrix(-1, 0, 0, 1, 0, 0)
+    ref = bz.EllArc.centre(c["cx"], c["cy"], c["rx"], c["ry"], math.radians(c["rot"]), c["th0"], c["dth"])
+    return arc, ref, (arc.start.x, arc.start.y), (arc.end.x, arc.end.y)
+
+
 def frame(c, p):
     phi = math.radians(c["rot"])
     dx, dy = p[0] - c["cx"], p[1] - c["cy"]
@@ -128,24 +143,26 @@ class Arcs(SubCheck):
 
     def __init__(self, svg, tier):
         self.svg = svg
-        self.p = Product(RATIO, ROT, TH0, EXT, [1, -1], MAGS if tier == "thorough" else [1.0, 1e5])
-        self.bounds = dict(ratios=RATIO, rotations=ROT, starts=len(TH0), extents=len(EXT), subdivisions=[str(n) for n in NSUB])
+        self.p = Product(RATIO, ROT, TH0, EXT, [1, -1], MAGS if tier == "thorough" else [1.0, 1e5], VIA)
+        self.bounds = dict(ratios=RATIO, rotations=ROT, starts=len(TH0), extents=len(EXT), subdivisions=[str(n) for n in NSUB],
+                           via=VIA)
 
     def size(self):
         return len(self.p)
 
     def case(self, i):
-        k, rot, th0, ext, sg, m = self.p[i]
-        return dict(cx=3.0 * m, cy=-2.0 * m, rx=2.5 * k * m, ry=2.5 * m, rot=rot, th0=math.radians(th0), dth=sg * ext, mag=m)
+        k, rot, th0, ext, sg, m, via = self.p[i]
+        return dict(cx=3.0 * m, cy=-2.0 * m, rx=2.5 * k * m, ry=2.5 * m, rot=rot, th0=math.radians(th0), dth=sg * ext, mag=m,
+                    via=via)
 
     def run(self, case):
         out = Outcome()
         svg = self.svg
         c = case
-        arc, ref, start, end = make_arc(svg, c)
+        arc, ref, start, end = make_arc_via(svg, c)
         default_n = int(math.ceil(abs(c["dth"]) / (math.tau / 12.0)))
         if c["dth"] != 0:
-            out.nontrivial.append((c["rx"] / c["ry"], c["rot"], round(c["dth"], 6), c["mag"]))
+            out.nontrivial.append((c["rx"] / c["ry"], c["rot"], round(c["dth"], 6), c["mag"], c.get("via")))
         for conv, bound in (("cubic", 1e-3), ("quad", 1e-2)):
             fn = arc.as_cubic_curves if conv == "cubic" else arc.as_quad_curves
             res = {}
@@ -159,7 +176,7 @@ class Arcs(SubCheck):
                     nn = 4 * default_n
                 if nn == 0 and n is not None:
                     continue
-                tags = dict(conv=conv, n=str(n), ratio=c["rx"] / c["ry"], mag=c["mag"])
+                tags = dict(conv=conv, n=str(n), ratio=c["rx"] / c["ry"], mag=c["mag"], via=c.get("via"))
                 try:
                     curves = list(fn(nn))
                 except Exception as e:  # noqa
@@ -189,7 +206,7 @@ EMB = [
     dict(rx=5.0, ry=3.0, rot=45.0, th0=0.5, dth=2 * math.pi), dict(rx=7.0, ry=7.0, rot=0.0, th0=3.0, dth=7.0),
     dict(rx=1.0, ry=1.0, rot=0.0, th0=0.0, dth=-0.2), dict(rx=50.0, ry=49.0, rot=200.0, th0=5.0, dth=4.0),
 ]
-POSN = ["after-move", "between-lines", "before-close", "twice", "last"]
+POSN = ["after-move", "between-lines", "before-close", "twice", "last", "after-zero-arc", "mirrored"]
 ERRS = [0.1, 0.05, 0.01]
 
 
@@ -213,7 +230,7 @@ class Embedded(SubCheck):
         out = Outcome()
         svg = self.svg
         c = case["arc"]
-        arc, ref, start, end = make_arc(svg, c)
+        arc, ref, start, end = make_arc_via(svg, dict(c, via="mirrored" if case["pos"] == "mirrored" else "direct"))
         P = svg.Point
         m = c["mag"]
         a = P(start[0] - 4 * m, start[1] + 1 * m)
@@ -225,6 +242,12 @@ class Embedded(SubCheck):
             segs = [svg.Move(end=a), svg.Line(a, P(*start)), arc, svg.Line(P(*end), z)]
         elif pos == "before-close":
             segs = [svg.Move(end=a), svg.Line(a, P(*start)), arc, svg.Close(P(*end), a)]
+        elif pos == "after-zero-arc":
+            # a zero-extent arc (replaced by nothing) directly before the arc: the replacement shifts the indices
+            zarc = svg.Arc(P(*start), P(*start), (c["cx"], c["cy"]), ref.at_angle(0.0), ref.at_angle(math.pi / 2), 0.0)
+            segs = [svg.Move(end=a), svg.Line(a, P(*start)), zarc, arc, svg.Line(P(*end), z)]
+        elif pos == "mirrored":
+            segs = [svg.Move(end=a), svg.Line(a, P(*start)), arc, svg.Line(P(*end), z)]
         elif pos == "twice":
             arc2, _, s2, e2 = make_arc(svg, c)
             segs = [svg.Move(end=P(*start)), arc, svg.Line(P(*end), P(*start)), arc2]
@@ -270,7 +293,7 @@ class Embedded(SubCheck):
         if keep_after != keep_before:
             out.fail("the rest of the path changed", keep_before, keep_after, kind="rest-changed", **tags)
             return out
-        narcs = sum(1 for b in before if b[0] == "Arc")
+        narcs = sum(1 for b in before if b[0] == "Arc") - (1 if pos == "after-zero-arc" else 0)
         if c["dth"] == 0:
             if groups:
                 out.fail("zero-extent arc produced curves", 0, len(groups), kind="zero", **tags)
